@@ -92,6 +92,14 @@ __all__ = [
 ]
 
 
+def _value_repr(value: Any) -> str:
+    """repr() for error messages, some values cannot be printed (e.g. an int with more than 4300 digits)"""
+    try:
+        return reprlib.repr(value)
+    except Exception:
+        return f"<{type(value).__name__}>"
+
+
 def _repr(buffer: _BufferType) -> str:
     if isinstance(buffer, BytesIO):
         return repr(buffer.getvalue())
@@ -155,7 +163,7 @@ class DataType(metaclass=_DataTypeMeta):
         try:
             return cls._encode(value)
         except Exception as err:
-            raise DataError(f"Error packing {value!r} as {cls.__name__}") from err
+            raise DataError(f"Error packing {_value_repr(value)} as {cls.__name__}") from err
 
     @classmethod
     def _encode(cls, value: Any) -> bytes:
@@ -580,7 +588,7 @@ class STRINGN(StringDataType):
             )
         except Exception as err:
             raise DataError(
-                f"Error encoding {value!r} as STRINGN using char. size {char_size}"
+                f"Error encoding {_value_repr(value)} as STRINGN using char. size {char_size}"
             ) from err
 
     @classmethod
